@@ -10,8 +10,8 @@ CONFIG = dict(
                "prefix, path-id) = current state, PeerDown written out only after PeerUp for every consumer and every input "
                "stream, the consumer invariants (a peer in session is announced on every consumer connection that has read "
                "the peer table; the station agrees with the channel view on every key of an announced peer unless the key is "
-               "on its way out) and the master theorem C18_full_holds: the C18 reference checker accepts every model schedule "
-               "of EVERY case, consumer tasks included.  The model is tied to the code "
+               "on its way out) and the master theorem C18_full_holds_partial: the C18 reference checker accepts every model schedule "
+               "of every case without a GR-retaining session end, consumer tasks included (with GR retention the tightened checker - a retained key is excused only by the subscriber's own history - is refuted for BMP/watch connections, finding S28h / C18_full_fails, and unproved for channel subscribers).  The model is tied to the code "
                "by running the REAL TableManager, the REAL Global peer table, the REAL PeerSession::finish_session teardown and "
                "the REAL BmpClient::serve (on a loopback TCP connection whose bytes are decoded), the REAL MrtDumper::serve (BGP4MP records read back from its file) and the REAL gRPC watch_event handler (response stream polled) under a deterministic scheduler "
                "that releases one OS thread at a time between the cfg-guarded scheduling points in table_manager.rs, on the same "
@@ -19,9 +19,9 @@ CONFIG = dict(
                "final iter_reach/iter_reach_post; the reference checker is the oracle on the real observations.",
     level_note="Theorem-backed: every clause of the checker - channel subscribers, BMP connections, MRT dumps, watch streams - under "
                "insert/remove/soft-reset-in (any thread)/policy change/session up/non-retaining down/GR-retaining down/the four "
-               "bulk purges/subscribe/unsubscribe; a key the table "
-               "holds as a GR-retained (stale) route of an ended session is not judged (the observation carries a per-key stale flag; "
-               "the subscriber was told PeerDown, retention is C10's subject); the route clauses of a BMP connection / watch stream "
+               "bulk purges/subscribe/unsubscribe, in cases WITHOUT a GR-retaining session end.  Oracle-only (no theorem): cases with GR retention - for a key the table "
+               "holds as a GR-retained (stale) route (per-key stale flag in the observation) a subscriber may hold nothing only if the PeerDown of the key's peer was the last thing it was told about the key (or, consumer connections, nothing about the peer was ever announced), otherwise it must hold what the table holds; "
+               "open finding S28h there for BMP/watch connections opened during retention; the route clauses of a BMP connection / watch stream "
                "are judged only when every session announces routes between its up and its down, the MRT clause only for peers "
                "that never end a session (both restrictions are in the checker, from the property's reading in DESIGN 4.0).  "
                "Hypothesis-backed (model = implementation on the generated stream + oracle on the real bytes): that the consumer "
@@ -39,7 +39,8 @@ CONFIG = dict(
                "the harness has no scheduling point inside it.)",
     lean_modules=["Rbgp.Monitor.Props"],
     theorems=[
-        "Rbgp.Monitor.Props.C18_full_holds",
+        "Rbgp.Monitor.Props.C18_full_holds_partial",
+        "Rbgp.Monitor.Props.C18_full_fails",
         "Rbgp.Monitor.Props.check_run_ok",
         "Rbgp.Monitor.Props.bmp_peerdown_after_peerup",
         "Rbgp.Monitor.Props.watch_peerdown_after_peerup",
